@@ -46,6 +46,8 @@ type C08Sc struct {
 	// Block family: one block instruction in a hostile layout (C09's free layout: wrap at 0xFFFF,
 	// ranges over the instruction itself), breakpoint behind it
 	Block *C09Sc `json:"block,omitempty"`
+	// MaxSteps > 0: the Step-driven twin may need this many Steps per Run (family "long")
+	MaxSteps int `json:"max_steps,omitempty"`
 }
 
 // C08BPEdit is a breakpoint edit made by a device callback at a tick.
@@ -92,6 +94,44 @@ func (c08) Gen(r *world.Rng, tier string, n int) interface{} {
 		for i := r.Range(1, 4); i > 0; i-- {
 			sc.Host = append(sc.Host, HostOp{Op: "run"})
 		}
+		return sc
+	}
+	if n%256 == 21 {
+		// long runs: the stop (HALT or breakpoint) comes thousands of Steps into the Run, on or next to a
+		// Step index that is a multiple of a power of two - whatever Run does only every so often
+		// (polling, batching) must not move the stop point
+		sc.Family = "long"
+		T := r.Pick(4096, 4096, 8192, 12288, 16384, 1024, 2048, 32768, 65536, 256*r.Range(1, 200), r.Range(3000, 70000)) + r.Pick(0, 0, 0, 1, -1)
+		regs := world.RandRegs(r)
+		regs.SP, regs.IFF1, regs.IFF2 = 0x9000, false, false
+		if T <= 60000 && r.Bool() {
+			// a NOP sled (memory is all zero): the HALT is the T-th instruction
+			start := uint16(r.Range(0x0100, 0x0800))
+			regs.PC = start
+			sc.Prog = gen.Prog{Code: []gen.CodeSeg{{Addr: start + uint16(T-1), Ins: []string{"76"}}}, Regs: regs, HaltAddr: start + uint16(T-1)}
+			if r.Bool() {
+				// ... or a breakpoint is reached by the K-th Step, K of the same kind
+				K := r.Pick(4096, 8192, 1024, 2048, 256*r.Range(1, 200)) + r.Pick(0, 0, 1, -1)
+				if K < T {
+					sc.BP = []uint16{start + uint16(K)}
+				}
+			}
+		} else {
+			// p NOPs ; LD BC,n ; loop: DEC BC ; LD A,B ; OR C ; JP NZ,loop ; HALT - the HALT is Step p+4n+2
+			p := (T - 2) % 4
+			cnt := (T - 2 - p) / 4
+			var ins []string
+			for i := 0; i < p; i++ {
+				ins = append(ins, "00")
+			}
+			loop := 0x0100 + p + 3
+			ins = append(ins, hex.EncodeToString([]uint8{0x01, uint8(cnt), uint8(cnt >> 8)}), "0b", "78", "b1",
+				hex.EncodeToString([]uint8{0xc2, uint8(loop), uint8(loop >> 8)}), "76")
+			regs.PC = 0x0100
+			sc.Prog = gen.Prog{Code: []gen.CodeSeg{{Addr: 0x0100, Ins: ins}}, Regs: regs, HaltAddr: uint16(loop + 6)}
+		}
+		sc.MaxSteps = T + 16
+		sc.Host = []HostOp{{Op: "run"}, {Op: "run"}}
 		return sc
 	}
 	if n%8 == 7 {
@@ -451,7 +491,10 @@ func (c08) Exec(sci interface{}, env *Env) *Violation {
 			before := tw.CPU.States
 			slotBefore := tw.CPU.Interrupt
 			nPres := len(tw.Presented)
-			wantErr, steps, haltExec, ok := stepRun(tw, c08MaxSteps)
+			wantErr, steps, haltExec, ok := stepRun(tw, max(c08MaxSteps, sc.MaxSteps))
+			if sc.Family == "long" && steps > 1 {
+				env.Fire("long-run-stop-after-thousands-of-steps")
+			}
 			if !ok {
 				env.Class("stop/twin-does-not-stop")
 				return nil // the Step-driven twin itself does not stop: no verdict
